@@ -23,6 +23,28 @@ T.trusted("int()", "int(s) for a str either raises ValueError or returns py_int(
 DATAONE = ["MD5", "SHA-1", "SHA-256", "SHA-384", "SHA-512"]
 
 
+def _yaml_roundtrip(ax, t):
+    """yaml.safe_load(<comment lines> + yaml.dump(d)) == d  (assumed; validated natively)."""
+    ch = t.children()
+    last = ch[-1]
+    if not (z3.is_app(last) and last.decl().name() == "yaml_dump"):
+        return
+    for c in ch[:-1]:
+        if z3.is_const(c) and c.decl().name() == "yaml_comment_block":
+            continue     # the comment block _write_properties emits (checked on its real text)
+        if not z3.is_string_value(c):
+            return
+        for line in c.as_string().splitlines():
+            if line.strip() and not line.lstrip().startswith("#"):
+                return
+    d, w, ns, al = [last.arg(i) for i in range(4)]
+    ax.out.append(z3.And(yaml_ok(t), yaml_depth(t) == d, yaml_width(t) == w, yaml_ns(t) == ns,
+                         yaml_algo(t) == al))
+
+
+T.YAML_HOOK.append(_yaml_roundtrip)
+
+
 def cstr(v):
     if isinstance(v, VStr):
         return v.concrete()
@@ -34,6 +56,7 @@ class FullLib(Lib):
     # events / primitives on the abstract file system
     # ==========================================================================================
     def isfile(self, it, p):
+        p = self.as_path(it, p)
         if self.is_dir_path(p) and isinstance(p, VPath):
             return FALSE
         loc = self.path_loc(it, p)
@@ -41,6 +64,7 @@ class FullLib(Lib):
         return T.present(self.fs_get(it, loc))
 
     def exists(self, it, p):
+        p = self.as_path(it, p)
         if isinstance(p, VPath) and self.is_dir_path(p):
             did = self.path_dir(it, p)
             it.ctx.event("probe-dir", dir=did)
@@ -463,6 +487,7 @@ class FullLib(Lib):
         return VBool(self.exists(it, p))
 
     def c_os_path_isdir(self, it, p):
+        p = self.as_path(it, p)
         if isinstance(p, VPath) and self.is_dir_path(p):
             return VBool(self.exists(it, p))
         raise Undecided(f"isdir({p})")
@@ -476,6 +501,7 @@ class FullLib(Lib):
         return VInt(fsize(st))
 
     def c_os_path_join(self, it, base, *rest):
+        base = self.as_path(it, base)
         if isinstance(base, (VStr, VDyn)):
             s = self.need_str(it, base, "TypeError")
             base = VPath(A_EXT, (("str", s.term),), pathobj=False)
@@ -549,7 +575,7 @@ class FullLib(Lib):
     def c_Path(self, it, *parts):
         if not parts:
             raise Undecided("Path()")
-        first = parts[0]
+        first = self.as_path(it, parts[0])
         if isinstance(first, VPath):
             base = first
         elif isinstance(first, VShard):
